@@ -166,6 +166,18 @@ def canon2 (params : List (List Nat)) (d1 d2 : Nat) : Nat × Nat :=
   let s := firstOr0 params.tail
   (if f == 0 then d1 else f, if s == 0 then d2 else s)
 
+/-- `params_iter.next().and_then(|x| x.first().copied())` -/
+def xtOp (params : List (List Nat)) : Option Nat :=
+  match params with
+  | [] => none
+  | p :: _ => p.head?
+
+/-- `params_iter.next().map_or(dflt, |x| *x.first().unwrap_or(&dflt))` on what is left -/
+def xtArg (params : List (List Nat)) (dflt : Nat) : Nat :=
+  match params with
+  | [] => dflt
+  | p :: _ => p.headD dflt
+
 /-! ### the `Perform` methods -/
 
 def performExecute (cb : CbPolicy) (ws : WS) (b : Nat) : M WS :=
@@ -231,12 +243,9 @@ def performCsi (cb : CbPolicy) (ws : WS) (params : List (List Nat)) (ints : List
         let (t, b) := canon2 params 1 s.cur.size.rows
         s.decstbm t b)
     | 116 =>                                                   -- 't'
-      let op := match params with | [] => none | p :: _ => p.head?
-      if op == some 8 then
+      if xtOp params == some 8 then
         let sz := ws.screen.size
-        let rows := match params.tail with | [] => sz.rows | p :: _ => p.headD sz.rows
-        let cols := match params.tail.tail with | [] => sz.cols | p :: _ => p.headD sz.cols
-        emit cb (.resize rows cols) ws
+        emit cb (.resize (xtArg params.tail sz.rows) (xtArg params.tail.tail sz.cols)) ws
       else emit cb (.unhandledCsi none none params c) ws
     | _ => emit cb (.unhandledCsi none none params c) ws
   | 63 :: rest =>                                              -- '?'
